@@ -217,9 +217,9 @@ def run(ck, m):
         sts = [st for t, st in stores_in(ast.Module(body=runw.body, type_ignores=[])) if isinstance(t, ast.Name) and t.id == lk and norm(st.value) == src]
         ok = bool(sts) and bool(rets) and all(s.lineno < rets[-1].lineno for s in sts)
         ck.ob("L4", runw, ok, f"_process_run_wrapper must install `{lk} = {src}` before calling the wrapped run()", stmt=f"_process_run_wrapper: install {lk}")
-    has_global = any(isinstance(g_, ast.Global) and {"_tty_lock", "_cell_size_cache", "_cell_size_lock"} <= set(g_.names) for g_ in runw.body)
+    has_global = {"_tty_lock", "_cell_size_cache", "_cell_size_lock"} <= {nm for g_ in body_walk(runw) if isinstance(g_, ast.Global) for nm in g_.names}
     ck.ob("L4", runw, has_global, "_process_run_wrapper must declare the lock names global (otherwise it binds locals)", stmt="_process_run_wrapper: global decl")
-    has_global = any(isinstance(g_, ast.Global) and {"_tty_lock", "_cell_size_cache", "_cell_size_lock"} <= set(g_.names) for g_ in start.body)
+    has_global = {"_tty_lock", "_cell_size_cache", "_cell_size_lock"} <= {nm for g_ in body_walk(start) if isinstance(g_, ast.Global) for nm in g_.names}
     ck.ob("L4", start, has_global, "_process_start_wrapper must declare the lock names global", stmt="_process_start_wrapper: global decl")
     patched = {}
     for n in ast.walk(tree):
